@@ -1,8 +1,160 @@
 //! Verification hook (compiled only with `--cfg quinn_rs_quinn_verif`).
+//!
+//! Component: `pkt_accept` — the real `decrypt_packet_body` (key selection / key-update checks)
+//! and `unprotect_header` (stateless-reset detection) of connection/packet_crypto.rs, driven with
+//! stub keys: a stub packet key with id `k` opens a payload iff its first byte is `k`.
 #![allow(missing_docs, dead_code, unused_imports, unreachable_pub, clippy::all)]
 use super::{Ops, Outs};
+use crate::{
+    ConnectionId, Instant,
+    connection::{
+        packet_crypto::{PrevCrypto, ZeroRttCrypto, decrypt_packet_body, unprotect_header},
+        spaces::PacketSpace,
+    },
+    crypto::{CryptoError, HeaderKey, KeyPair, Keys, PacketKey},
+    packet::{
+        FixedLengthConnectionIdParser, Header, InitialHeader, LongType, Packet, PacketNumber,
+        PartialDecode,
+    },
+    token::ResetToken,
+};
+use bytes::{Bytes, BytesMut};
+
+struct StubHeaderKey;
+impl HeaderKey for StubHeaderKey {
+    fn decrypt(&self, _: usize, _: &mut [u8]) {}
+    fn encrypt(&self, _: usize, _: &mut [u8]) {}
+    fn sample_size(&self) -> usize {
+        16
+    }
+}
+
+struct StubPacketKey(u8);
+impl PacketKey for StubPacketKey {
+    fn encrypt(&self, _: u64, _: &mut [u8], _: usize) {}
+    fn decrypt(&self, _: u64, _: &[u8], payload: &mut BytesMut) -> Result<(), CryptoError> {
+        if payload.first() == Some(&self.0) { Ok(()) } else { Err(CryptoError) }
+    }
+    fn tag_len(&self) -> usize {
+        0
+    }
+    fn confidentiality_limit(&self) -> u64 {
+        u64::MAX
+    }
+    fn integrity_limit(&self) -> u64 {
+        u64::MAX
+    }
+}
+
+fn pair(id: u8) -> KeyPair<Box<dyn PacketKey>> {
+    KeyPair { local: Box::new(StubPacketKey(id)), remote: Box::new(StubPacketKey(id)) }
+}
+
+fn keys(id: u8) -> Keys {
+    Keys {
+        header: KeyPair { local: Box::new(StubHeaderKey), remote: Box::new(StubHeaderKey) },
+        packet: pair(id),
+    }
+}
+
+fn spaces(rx_packet: u64) -> [PacketSpace; 3] {
+    let now = Instant::now();
+    let mut s = [PacketSpace::new(now), PacketSpace::new(now), PacketSpace::new(now)];
+    for (i, sp) in s.iter_mut().enumerate() {
+        sp.crypto = Some(keys(10 + i as u8));
+        sp.rx_packet = rx_packet;
+    }
+    s
+}
+
+/// pkt_accept ops (stub key ids: Initial 10, Handshake 11, Data current 12, previous 20, next 21,
+/// 0-RTT 30):
+///   [1, kind (0 Initial / 1 Handshake / 2 0-RTT / 3 Short / 4 Retry), key_phase, pn (u32 encoded),
+///       rx_packet, conn_key_phase, prev_present, prev_end_present, prev_end_pn, prev_update_unacked,
+///       next_present, zero_rtt_present, sealed_key (first payload byte), reserved_bits_ok]
+///      `decrypt_packet_body` -> [0] Ok(None) | [1, number, outgoing_key_update_acked, incoming_key_update]
+///                               | [2] Err(None) | [3, transport error code]
+///   [2, token_present, cid_len, t0..t15, packet bytes...]
+///      `PartialDecode::new` (fixed-length CIDs) then `unprotect_header` with that expected token
+///      -> [9] header not decodable | [0] dropped | [1, packet_present, stateless_reset]
+fn pkt_accept(ops: &Ops) -> Outs {
+    ops.iter()
+        .map(|op| match op[0] {
+            1 => {
+                let cid = ConnectionId::new(&[1, 2, 3, 4]);
+                let number = PacketNumber::U32(op[3] as u32);
+                let header = match op[1] {
+                    0 => Header::Initial(InitialHeader {
+                        dst_cid: cid,
+                        src_cid: cid,
+                        token: Bytes::new(),
+                        number,
+                        version: 1,
+                    }),
+                    1 => Header::Long { ty: LongType::Handshake, dst_cid: cid, src_cid: cid, number, version: 1 },
+                    2 => Header::Long { ty: LongType::ZeroRtt, dst_cid: cid, src_cid: cid, number, version: 1 },
+                    3 => Header::Short { spin: false, key_phase: op[2] != 0, dst_cid: cid, number },
+                    _ => Header::Retry { dst_cid: cid, src_cid: cid, version: 1 },
+                };
+                let first: u8 = match (op[1], op[13] != 0) {
+                    (3, true) => 0x40,
+                    (3, false) => 0x40 | 0x08,
+                    (_, true) => 0xc0,
+                    (_, false) => 0xc0 | 0x04,
+                };
+                let mut packet = Packet {
+                    header,
+                    header_data: Bytes::from(vec![first, 0, 0, 0]),
+                    payload: BytesMut::from(&[op[12] as u8, 0, 0, 0][..]),
+                };
+                let sp = spaces(op[4] as u64);
+                let zero = (op[11] != 0)
+                    .then(|| ZeroRttCrypto { header: Box::new(StubHeaderKey), packet: Box::new(StubPacketKey(30)) });
+                let prev = (op[6] != 0).then(|| PrevCrypto {
+                    crypto: pair(20),
+                    end_packet: (op[7] != 0).then(|| (op[8] as u64, Instant::now())),
+                    update_unacked: op[9] != 0,
+                });
+                let next = (op[10] != 0).then(|| pair(21));
+                match decrypt_packet_body(&mut packet, &sp, zero.as_ref(), op[5] != 0, prev.as_ref(), next.as_ref()) {
+                    Ok(None) => vec![0],
+                    Ok(Some(r)) => vec![
+                        1,
+                        r.number as i128,
+                        r.outgoing_key_update_acked as i128,
+                        r.incoming_key_update as i128,
+                    ],
+                    Err(None) => vec![2],
+                    Err(Some(e)) => vec![3, u64::from(e.code) as i128],
+                }
+            }
+            2 => {
+                let token: Option<ResetToken> = (op[1] != 0).then(|| {
+                    let mut t = [0u8; 16];
+                    for i in 0..16 {
+                        t[i] = op[3 + i] as u8;
+                    }
+                    t.into()
+                });
+                let bytes: Vec<u8> = op[19..].iter().map(|x| *x as u8).collect();
+                let parser = FixedLengthConnectionIdParser::new(op[2] as usize);
+                match PartialDecode::new(BytesMut::from(&bytes[..]), &parser, &[1], false) {
+                    Err(_) => vec![9],
+                    Ok((pd, _)) => match unprotect_header(pd, &spaces(0), None, token) {
+                        None => vec![0],
+                        Some(r) => vec![1, r.packet.is_some() as i128, r.stateless_reset as i128],
+                    },
+                }
+            }
+            _ => vec![-1],
+        })
+        .collect()
+}
 
 /// Interpret `ops` for component `comp`; `None` if `comp` is not served by this module.
-pub(crate) fn run(_comp: &str, _ops: &Ops) -> Option<Outs> {
-    None
+pub(crate) fn run(comp: &str, ops: &Ops) -> Option<Outs> {
+    match comp {
+        "pkt_accept" => Some(pkt_accept(ops)),
+        _ => None,
+    }
 }
